@@ -698,6 +698,16 @@ def inline_new_temporaries(repo, ref):
                     if root is None:
                         continue
                     anc = _ancestors(use, getattr(root, "_parent", None))
+                    if _pure_over_locals(st.value, fi):
+                        # a side-effect free expression over locals and constants has the same value wherever the using
+                        # statement evaluates it (once, conditionally or not): only repeated evaluation contexts are excluded
+                        if not any(isinstance(a, (ast.Lambda, ast.ListComp, ast.SetComp, ast.DictComp, ast.GeneratorExp)) for a in anc):
+                            _install(use, st.value)
+                            del blk[i]
+                            _invalidate(owner)
+                            folded.setdefault(q, []).append(name)
+                            progress = True
+                            break
                     # not under conditional / repeated evaluation
                     bad = False
                     child = use
@@ -939,6 +949,20 @@ def inline_new_helpers(repo, full_ref):
                     form = "assign"
                 elif isinstance(st, ast.Return) and st.value is c:
                     form = "return"
+                else:
+                    # nested in a simple statement, and nothing with an effect is evaluated before it: the call is taken out
+                    # into a temporary (x = f(h(a)).g()  ->  _h = h(a); x = f(_h).g())
+                    top = c
+                    while top is not None and not isinstance(top, ast.stmt):
+                        top = getattr(top, "_parent", None)
+                    if isinstance(top, (ast.Expr, ast.Assign, ast.Return, ast.AugAssign)) and not _inside(c, (ast.Lambda, ast.ListComp, ast.SetComp, ast.DictComp, ast.GeneratorExp, ast.IfExp, ast.BoolOp), top):
+                        anc_ids = {id(a_) for a_ in _ancestors(c, top)}
+                        earlier = [x for x in ast.walk(top) if isinstance(x, (ast.Call, ast.Await, ast.Yield, ast.YieldFrom, ast.NamedExpr)) and x is not c
+                                   and id(x) not in anc_ids and not any(y is x for y in ast.walk(c)) and _pos(x) < _pos(c)]
+                        in_target = isinstance(top, (ast.Assign, ast.AugAssign)) and not any(y is c for y in ast.walk(top.value))
+                        if not earlier and not in_target:
+                            form = "nested"
+                            st = top
                 sites.append((fi, c, st, form, ok_recv, recv))
         if not sites or other_uses or any(not ok or form is None for (_, _, _, form, ok, _) in sites):
             continue
@@ -976,6 +1000,17 @@ def inline_new_helpers(repo, full_ref):
                     if n in caller_names and n not in mapping:
                         mapping[n] = n + "__h"
                 tgt = ast.unparse(st.targets[0]) if form == "assign" else None
+                if form == "nested":
+                    tgt = "_h%d_%s" % (len(done.get(fi.qual, [])) + 1, h.name.strip("_"))
+                    form = "assign"
+                    tmp = ast.Name(id=tgt, ctx=ast.Load())
+                    ast.copy_location(tmp, c)
+                    tmp._parent = c._parent
+                    _replace_child(c._parent, c, tmp)
+                    _invalidate(tmp)
+                    keep_stmt = True
+                else:
+                    keep_stmt = False
 
                 def conv(value, form=form, tgt=tgt):
                     if form == "expr":
@@ -1004,7 +1039,7 @@ def inline_new_helpers(repo, full_ref):
                             ch._parent = y
                     s_._parent = owner
                     s_._inlined_from = hq
-                blk[idx:idx + 1] = fresh
+                blk[idx:idx + (0 if keep_stmt else 1)] = fresh
                 _invalidate(owner)
                 done.setdefault(fi.qual, []).append(h.name)
         except _Refuse:
@@ -1066,4 +1101,38 @@ def _stores_only_on_self(fi, attr):
                 return False
         if isinstance(n, ast.Call) and isinstance(n.func, ast.Name) and n.func.id in ("setattr", "delattr"):
             return False
+    return True
+
+
+_PURE_METHODS = {"rstrip", "lstrip", "strip", "lower", "upper", "replace", "split", "rsplit", "join", "startswith", "endswith", "encode", "decode",
+                 "format", "casefold", "title", "zfill", "partition", "rpartition", "splitlines", "hex", "bit_length", "to_bytes", "count", "find", "index"}
+_PURE_FUNCS = {"len", "int", "str", "bytes", "bool", "float", "min", "max", "abs", "tuple", "frozenset", "repr", "ord", "chr", "divmod", "round", "sorted",
+               "os.path.join", "os.path.abspath", "os.path.normpath", "os.path.basename", "os.path.dirname", "os.path.normcase", "os.path.splitext"}
+
+
+def _pure_over_locals(e, fi):
+    """no effects and no dependence on mutable shared state: constants, local names / parameters (not self / cls attributes),
+    arithmetic, comparisons, slices, and calls of well-known pure functions / str-bytes methods on such values"""
+    for x in ast.walk(e):
+        if isinstance(x, (ast.Constant, ast.Name, ast.BinOp, ast.UnaryOp, ast.BoolOp, ast.Compare, ast.Subscript, ast.Slice, ast.Tuple, ast.IfExp,
+                          ast.operator, ast.unaryop, ast.boolop, ast.cmpop, ast.expr_context, ast.JoinedStr, ast.FormattedValue)):
+            continue
+        if isinstance(x, ast.Call):
+            f = x.func
+            if isinstance(f, ast.Attribute) and f.attr in _PURE_METHODS and not x.keywords:
+                continue
+            if ast.unparse(f) in _PURE_FUNCS:
+                continue
+            return False
+        if isinstance(x, ast.Attribute):
+            # only as the function part of a pure call (checked above) or a module constant such as os.sep
+            p = getattr(x, "_parent", None)
+            if isinstance(p, ast.Call) and p.func is x:
+                continue
+            if ast.unparse(x) in ("os.sep", "os.path.sep") or ast.unparse(x).startswith("os.path."):
+                continue
+            return False
+        if isinstance(x, (ast.keyword,)):
+            continue
+        return False
     return True
